@@ -1452,3 +1452,329 @@ Proof.
   rewrite <- !app_assoc. cbn [app]. rewrite !map_app, !concat_app. cbn [map concat].
   rewrite <- ?app_assoc. eexists. reflexivity.
 Qed.
+
+(* ------------------------------------------------------------------------------------------ *)
+(** * 14. property-level statements (C14) *)
+
+Lemma c14_bound r part cfg x0 ops w0 rs x w :
+  ctx_new r part cfg = Some x0 -> run_ops x0 ops w0 = (rs, x, w) ->
+  setbuf_nondecreasing (cfg_max_write_buffer_size cfg) ops ->
+  blen (c_out (x_codec x)) <= c_max_out (x_codec x) /\
+  c_max_out (x_codec x) = cfg_max_write_buffer_size (x_cfg x).
+Proof.
+  intros Hn Hr Hm. pose proof (reach_cfg_ok _ _ _ _ _ _ _ _ _ Hn Hr) as [Hc _].
+  split; [|exact Hc]. apply ctx_new_spec in Hn. destruct Hn as [[Hmx _] [Ho [Hcfg _]]].
+  eapply run_ops_bounded; [exact Hr| |].
+  - rewrite Hmx, Hcfg. exact Hm.
+  - unfold out_bounded. rewrite Ho, blen_nil. lia.
+Qed.
+
+Lemma max_hist_no_setbuf ops : forall m, Forall (fun o => is_setbuf o = false) ops -> max_hist m ops = m.
+Proof.
+  induction ops as [|o ops IH]; intros m H; [reflexivity|]. inversion H as [|? ? Ho Hr]; subst.
+  destruct o; try discriminate Ho; cbn [max_hist]; apply IH; exact Hr.
+Qed.
+
+Lemma c14_bound_hist r part cfg x0 ops w0 rs x w :
+  ctx_new r part cfg = Some x0 -> run_ops x0 ops w0 = (rs, x, w) ->
+  blen (c_out (x_codec x)) <= max_hist (cfg_max_write_buffer_size cfg) ops.
+Proof.
+  intros Hn Hr. apply ctx_new_spec in Hn. destruct Hn as [[Hmx _] [Ho [Hcfg _]]].
+  eapply run_ops_bounded_hist; [exact Hr| |].
+  - rewrite Ho, blen_nil. lia.
+  - rewrite Hmx, Hcfg. lia.
+Qed.
+
+Lemma c14_bound_fixed_config r part cfg x0 ops w0 rs x w :
+  ctx_new r part cfg = Some x0 -> run_ops x0 ops w0 = (rs, x, w) ->
+  Forall (fun o => is_setbuf o = false) ops ->
+  blen (c_out (x_codec x)) <= cfg_max_write_buffer_size cfg.
+Proof.
+  intros Hn Hr Hf. pose proof (c14_bound_hist _ _ _ _ _ _ _ _ _ Hn Hr) as H.
+  rewrite (max_hist_no_setbuf _ _ Hf) in H. exact H.
+Qed.
+
+(* whatever state we are in (also above the limit after a shrinking set_config), no call other
+   than set_config makes out_buffer larger than max(its current size, the limit) *)
+Lemma c14_no_growth x o w res x' w' :
+  run_op x o w = (res, x', w') -> is_setbuf o = false ->
+  blen (c_out (x_codec x')) <= N.max (blen (c_out (x_codec x))) (c_max_out (x_codec x)).
+Proof. intros H Hs. destruct (run_op_pstep _ _ _ _ _ _ H Hs) as [[_ [_ [_ Hb]]] _]. exact Hb. Qed.
+
+(* the unrestricted statement is false: set_config may cut the limit below what is buffered *)
+Lemma c14_bound_shrink_refuted :
+  exists cfg x0 ops w0 rs x w,
+    ctx_new Server [] cfg = Some x0 /\ run_ops x0 ops w0 = (rs, x, w) /\
+    c_max_out (x_codec x) < blen (c_out (x_codec x)).
+Proof.
+  exists (mkConfig 100 200 None None false).
+  eexists. exists [OpWrite (MBinary [1; 2; 3]); OpSetBuf 0 1], (mkWorld [] [] [] [] []).
+  eexists. eexists. eexists.
+  split; [reflexivity|]. split; [vm_compute; reflexivity|]. vm_compute. reflexivity.
+Qed.
+
+Lemma c14_full x m f w :
+  data_frame m = Some f -> x_state x = Active ->
+  let f1 := sent_frame (x_role x) w f in
+  c_max_out (x_codec x) < frame_len f1 + blen (c_out (x_codec x)) ->
+  write x m w = (RErr (EWriteBufferFull f1), x, after_key (x_role x) w).
+Proof.
+  intros Hd Hs f1 Hfull. destruct (write x m w) as [[r x'] w'] eqn:E.
+  rewrite (write_data_eq _ _ _ _ Hd), Hs in E. cbn [is_terminated is_active negb] in E.
+  apply write_data_spec in E; [|exact Hs]. fold f1 in E.
+  destruct E as [[_ [-> [-> ->]]]|[Hfit _]]; [reflexivity|lia].
+Qed.
+
+Lemma c14_full_iff x m f w r x' w' :
+  data_frame m = Some f -> x_state x = Active -> write x m w = (r, x', w') ->
+  let f1 := sent_frame (x_role x) w f in
+  (exists f', r = RErr (EWriteBufferFull f')) <->
+  c_max_out (x_codec x) < frame_len f1 + blen (c_out (x_codec x)).
+Proof.
+  intros Hd Hs H f1. split.
+  - intros [f' ->]. rewrite (write_data_eq _ _ _ _ Hd), Hs in H. cbn [is_terminated is_active negb] in H.
+    apply write_data_spec in H; [|exact Hs]. fold f1 in H.
+    destruct H as [[Hfull _]|[_ [[Hr|[k Hr]] _]]]; [exact Hfull|discriminate Hr|discriminate Hr].
+  - intros Hfull. rewrite (c14_full _ _ _ _ Hd Hs Hfull) in H. inv H. eexists. reflexivity.
+Qed.
+
+Lemma c14_accept_when_room x m f w :
+  data_frame m = Some f -> x_state x = Active ->
+  let f1 := sent_frame (x_role x) w f in
+  frame_len f1 + blen (c_out (x_codec x)) <= c_max_out (x_codec x) ->
+  exists r x' w' evs,
+    write x m w = (r, x', w') /\ (r = ROk tt \/ exists k, r = RErr (EIo k)) /\
+    w_log w' = w_log w ++ EvQueue f1 :: evs.
+Proof.
+  intros Hd Hs f1 Hfit. destruct (write x m w) as [[r x'] w'] eqn:E.
+  rewrite (write_data_eq _ _ _ _ Hd), Hs in E. cbn [is_terminated is_active negb] in E.
+  apply write_data_spec in E; [|exact Hs]. fold f1 in E.
+  destruct E as [[Hfull _]|[_ [Hr [evs [El _]]]]]; [lia|].
+  exists r, x', w', evs. splits; auto.
+Qed.
+
+Lemma c14_batching x m f w :
+  data_frame m = Some f -> x_state x = Active -> x_additional x = None -> x_unflushed x = false ->
+  let f1 := sent_frame (x_role x) w f in
+  blen (c_out (x_codec x)) + frame_len f1 <= c_write_len (x_codec x) ->
+  c_write_len (x_codec x) <= c_max_out (x_codec x) ->
+  exists x' w',
+    write x m w = (ROk tt, x', w') /\ w_log w' = w_log w ++ [EvQueue f1] /\
+    c_out (x_codec x') = c_out (x_codec x) ++ frame_format f1.
+Proof.
+  intros Hd Hs Ha Hu f1 Hle Hcfg. destruct (write x m w) as [[r x'] w'] eqn:E.
+  pose proof (write_pstep _ _ _ _ _ _ E) as [[[evs' [El' Ht']] _] _].
+  rewrite (write_data_eq _ _ _ _ Hd), Hs in E. cbn [is_terminated is_active negb] in E.
+  apply write_data_spec in E; [|exact Hs]. fold f1 in E.
+  destruct E as [[Hfull _]|[_ [_ [evs [El [_ [_ [_ Hb]]]]]]]]; [lia|].
+  destruct (Hb Hle Ha Hu) as [-> ->]. exists x', w'. splits; auto.
+  rewrite El in El'. apply app_inv_head in El'. subst evs'. cbn [tracks] in Ht'. exact Ht'.
+Qed.
+
+Definition wr_offered (e : event) : N :=
+  match e with EvWrite o _ | EvWriteErr o _ => o | _ => 0 end.
+
+Lemma c14_threshold x m f w :
+  data_frame m = Some f -> x_state x = Active ->
+  let f1 := sent_frame (x_role x) w f in
+  frame_len f1 + blen (c_out (x_codec x)) <= c_max_out (x_codec x) ->
+  c_write_len (x_codec x) < blen (c_out (x_codec x)) + frame_len f1 ->
+  exists r x' w' e rest,
+    write x m w = (r, x', w') /\ w_log w' = w_log w ++ EvQueue f1 :: e :: rest /\
+    is_wr_ev e /\ wr_offered e = blen (c_out (x_codec x) ++ frame_format f1).
+Proof.
+  intros Hd Hs f1 Hfit Hlt. destruct (write x m w) as [[r x'] w'] eqn:E.
+  pose proof (write_pstep _ _ _ _ _ _ E) as [[[evs' [El' Ht']] _] _].
+  rewrite (write_data_eq _ _ _ _ Hd), Hs in E. cbn [is_terminated is_active negb] in E.
+  apply write_data_spec in E; [|exact Hs]. fold f1 in E.
+  destruct E as [[Hfull _]|[_ [_ [evs [El [_ [_ [Hh _]]]]]]]]; [lia|].
+  destruct (Hh Hlt) as [e [rest [-> He]]]. exists r, x', w', e, rest. splits; auto.
+  rewrite El in El'. apply app_inv_head in El'. subst evs'. cbn [tracks] in Ht'.
+  destruct e; cbn in He; try contradiction; cbn [tracks wr_offered] in *; tauto.
+Qed.
+
+Lemma c14_eager x m f w :
+  data_frame m = Some f -> x_state x = Active -> c_write_len (x_codec x) = 0 ->
+  let f1 := sent_frame (x_role x) w f in
+  frame_len f1 + blen (c_out (x_codec x)) <= c_max_out (x_codec x) ->
+  exists r x' w' e rest,
+    write x m w = (r, x', w') /\ w_log w' = w_log w ++ EvQueue f1 :: e :: rest /\
+    is_wr_ev e /\ wr_offered e = blen (c_out (x_codec x) ++ frame_format f1).
+Proof.
+  intros Hd Hs Hz f1 Hfit. apply c14_threshold; auto. fold f1.
+  pose proof (frame_len_ge2 f1). lia.
+Qed.
+
+Lemma c14_config_new r part cfg x :
+  ctx_new r part cfg = Some x ->
+  c_max_out (x_codec x) = cfg_max_write_buffer_size cfg /\
+  c_write_len (x_codec x) = cfg_write_buffer_size cfg /\ x_cfg x = cfg /\
+  cfg_write_buffer_size cfg < cfg_max_write_buffer_size cfg.
+Proof.
+  intros H. apply ctx_new_spec in H. destruct H as [[Hm [Hw Hv]] [_ [Hc _]]].
+  rewrite Hc in *. splits; auto. unfold config_valid in Hv. lia.
+Qed.
+
+Lemma c14_config_set x wbs max w res x' w' :
+  run_op x (OpSetBuf wbs max) w = (res, x', w') ->
+  (wbs < max /\ res = ResUnit (ROk tt) /\ w' = w /\
+   c_max_out (x_codec x') = max /\ c_write_len (x_codec x') = wbs /\
+   cfg_max_write_buffer_size (x_cfg x') = max /\ cfg_write_buffer_size (x_cfg x') = wbs /\
+   c_out (x_codec x') = c_out (x_codec x) /\ x_state x' = x_state x /\
+   x_additional x' = x_additional x) \/
+  (max <= wbs /\ res = ResUnit (RPanic site_config_invalid) /\ x' = x /\ w' = w).
+Proof.
+  rewrite run_op_setbuf. destruct (wbs <? max) eqn:E; intros H; inv H; [left|right]; cbn; splits; auto; lia.
+Qed.
+
+Lemma c14_config_inv r part cfg x0 ops w0 rs x w :
+  ctx_new r part cfg = Some x0 -> run_ops x0 ops w0 = (rs, x, w) ->
+  c_max_out (x_codec x) = cfg_max_write_buffer_size (x_cfg x) /\
+  c_write_len (x_codec x) = cfg_write_buffer_size (x_cfg x) /\
+  cfg_write_buffer_size (x_cfg x) < cfg_max_write_buffer_size (x_cfg x).
+Proof.
+  intros Hn Hr. pose proof (reach_cfg_ok _ _ _ _ _ _ _ _ _ Hn Hr) as [Hm [Hw Hv]].
+  splits; auto. unfold config_valid in Hv. lia.
+Qed.
+
+(* ------------------------------------------------------------------------------------------ *)
+(** * 15. the additional_send slot: Pong and Close travel through it and are never lost *)
+
+(* what a call did with the frame pending in the slot: nothing pending -> nothing queued;
+   pending a -> either nothing was queued and (a re-masked copy of) a is still pending, or exactly
+   (a masked copy of) a was queued and the slot is empty *)
+Definition slot_outcome (x : ctx) (evs : list event) (x' : ctx) : Prop :=
+  match x_additional x with
+  | None => queued evs = [] /\ x_additional x' = None
+  | Some a =>
+      (queued evs = [] /\ exists a', x_additional x' = Some a' /\ content_eq a a') \/
+      (exists a', queued evs = [a'] /\ content_eq a a' /\ x_additional x' = None)
+  end.
+
+Lemma write__none_slot x w r x' w' :
+  write_ x None w = (r, x', w') ->
+  exists evs, w_log w' = w_log w ++ evs /\ slot_outcome x evs x'.
+Proof.
+  intros H. unfold write_ in H. cbv beta iota zeta in H. unfold slot_outcome.
+  destruct (x_additional x) as [a|] eqn:Ea.
+  - destruct (buffer_frame (set_additional_raw x None) a w) as [[rb xb] wb] eqn:EB.
+    apply buffer_frame_spec in EB. cbn [x_role x_codec x_state set_additional_raw] in EB.
+    destruct EB as [[Hfull [-> [-> ->]]]|[Hfit [evs1 [El1 [Ht1 [Hw1 [Hb1 [Hx1 [Hr1 _]]]]]]]]].
+    + (* no room: back into the slot *)
+      unfold set_additional in H. cbn [x_additional set_additional_raw x_role x_state] in H.
+      rewrite Bool.andb_false_r in H. inv H.
+      exists []. rewrite app_nil_r, after_key_log. split; [reflexivity|]. left.
+      split; [reflexivity|]. eexists. split; [reflexivity|]. apply sent_frame_content.
+    + assert (Haddb : x_additional xb = None) by (rewrite Hx1; reflexivity).
+      assert (Hq : forall more, Forall is_wr_ev more ->
+                 queued (EvQueue (sent_frame (x_role x) w a) :: evs1 ++ more) = [sent_frame (x_role x) w a]).
+      { intros more Hm. cbn [queued]. rewrite queued_app, !queued_only_writes by assumption. reflexivity. }
+      destruct Hr1 as [[-> _]|[[k [-> _]]|[-> _]]].
+      * rewrite Haddb in H.
+        destruct (role_eqb (x_role xb) Server && closing_done (x_state xb) && true).
+        -- destruct (write_out_buffer (x_codec xb) wb) as [[rw c2] w2] eqn:EO.
+           apply write_out_buffer_spec in EO. destruct EO as [evs2 [El2 [_ [Hw2 _]]]].
+           assert (Hres : w' = w2 /\ x_additional x' = None)
+             by (destruct rw; inv H; (split; [reflexivity|exact Haddb])).
+           destruct Hres as [-> Hax].
+           exists (EvQueue (sent_frame (x_role x) w a) :: evs1 ++ evs2).
+           split; [rewrite El2, El1, <- app_assoc; reflexivity|]. right.
+           exists (sent_frame (x_role x) w a). split; [apply Hq; exact Hw2|].
+           split; [apply sent_frame_content|exact Hax].
+        -- inv H. exists (EvQueue (sent_frame (x_role x) w a) :: evs1 ++ []).
+           split; [rewrite app_nil_r; exact El1|]. right.
+           exists (sent_frame (x_role x) w a). split; [apply Hq; constructor|].
+           split; [apply sent_frame_content|exact Haddb].
+      * inv H. exists (EvQueue (sent_frame (x_role x) w a) :: evs1 ++ []).
+        split; [rewrite app_nil_r; exact El1|]. right.
+        exists (sent_frame (x_role x) w a). split; [apply Hq; constructor|].
+        split; [apply sent_frame_content|exact Haddb].
+      * inv H. exists (EvQueue (sent_frame (x_role x) w a) :: evs1 ++ []).
+        split; [rewrite app_nil_r; exact El1|]. right.
+        exists (sent_frame (x_role x) w a). split; [apply Hq; constructor|].
+        split; [apply sent_frame_content|exact Haddb].
+  - rewrite Ea in H.
+    destruct (role_eqb (x_role x) Server && closing_done (x_state x) && true).
+    + destruct (write_out_buffer (x_codec x) w) as [[rw c2] w2] eqn:EO.
+      apply write_out_buffer_spec in EO. destruct EO as [evs2 [El2 [_ [Hw2 _]]]].
+      assert (Hres : w' = w2 /\ x_additional x' = None)
+        by (destruct rw; inv H; (split; [reflexivity|exact Ea])).
+      destruct Hres as [-> Hax].
+      exists evs2. split; [exact El2|]. split; [now apply queued_only_writes|exact Hax].
+    + inv H. exists []. rewrite app_nil_r. splits; auto.
+Qed.
+
+Lemma flush_slot x w r x' w' :
+  flush x w = (r, x', w') ->
+  exists evs, w_log w' = w_log w ++ evs /\ slot_outcome x evs x'.
+Proof.
+  intros H. unfold flush in H.
+  destruct (write_ x None w) as [[r0 x0] w0] eqn:EW.
+  apply write__none_slot in EW. destruct EW as [evs0 [El0 Hs0]].
+  assert (Hext : forall more xx, Forall is_transport_wr_ev more -> x_additional xx = x_additional x0 ->
+                 slot_outcome x (evs0 ++ more) xx).
+  { intros more xx Hm Hxx. unfold slot_outcome in *. rewrite queued_app, (queued_only_transport _ Hm), app_nil_r, Hxx.
+    exact Hs0. }
+  destruct r0 as [b|e|s|];
+    try (inv H; exists (evs0 ++ []); split; [rewrite app_nil_r; exact El0|apply Hext; [constructor|reflexivity]]).
+  destruct (write_out_buffer (x_codec x0) w0) as [[r1 c1] w1] eqn:EO.
+  apply write_out_buffer_spec in EO. destruct EO as [evs1 [El1 [_ [Hw1 _]]]].
+  assert (Hw1' : Forall is_transport_wr_ev evs1).
+  { eapply Forall_impl; [|exact Hw1]. exact wr_ev_transport. }
+  destruct r1 as [u|e|s|];
+    try (inv H; exists (evs0 ++ evs1); split; [rewrite El1, El0, app_assoc; reflexivity|apply Hext; [exact Hw1'|reflexivity]]).
+  destruct (w_flush w1) as [r2 w2] eqn:EF. apply w_flush_spec in EF. destruct EF as [fr [El2 _]].
+  assert (Hres : w' = w2 /\ x_additional x' = x_additional x0)
+    by (destruct r2; inv H; (split; reflexivity)).
+  destruct Hres as [-> Hax].
+  exists (evs0 ++ evs1 ++ [EvFlush fr]).
+  split; [rewrite El2, El1, El0, <- !app_assoc; reflexivity|].
+  assert (Hall : Forall is_transport_wr_ev (evs1 ++ [EvFlush fr])).
+  { apply Forall_app. split; [exact Hw1'|repeat constructor]. }
+  apply Hext; auto.
+Qed.
+
+(* write(Pong d) on an active connection: the pong replaces an empty slot or a pending pong; the
+   call never queues anything but the slot's frame, and leaves it pending otherwise *)
+Lemma c10_accept_pong x d w r x' w' :
+  x_state x = Active -> write x (MPong d) w = (r, x', w') ->
+  exists evs, w_log w' = w_log w ++ evs /\ slot_outcome (set_additional x (frame_pong d)) evs x'.
+Proof.
+  intros Hs H. unfold write in H. rewrite Hs in H. cbn [is_terminated is_active negb] in H.
+  destruct (write_ (set_additional x (frame_pong d)) None w) as [[r0 x0] w0] eqn:EW.
+  apply write__none_slot in EW. destruct r0; inv H; exact EW.
+Qed.
+
+Lemma set_additional_pong_slot x d :
+  (x_additional x = None \/
+   exists a, x_additional x = Some a /\ h_opcode (f_hdr a) = OCtl Pong) ->
+  x_additional (set_additional x (frame_pong d)) = Some (frame_pong d).
+Proof.
+  unfold set_additional. intros [Hn|[a [Ha Hp]]].
+  - rewrite Hn. reflexivity.
+  - rewrite Ha, Hp. reflexivity.
+Qed.
+
+(* close(code) on an active connection: the Close frame is put into the slot (overriding a pending
+   pong) and is then either queued by this very call or still pending *)
+Lemma c10_accept_close x code w r x' w' :
+  x_state x = Active -> write x (MClose code) w = (r, x', w') ->
+  exists evs, w_log w' = w_log w ++ evs /\
+    ((queued evs = [] /\ exists a', x_additional x' = Some a' /\ content_eq (frame_close code) a') \/
+     (exists a', queued evs = [a'] /\ content_eq (frame_close code) a' /\ x_additional x' = None)).
+Proof.
+  intros Hs H. unfold write in H. rewrite Hs in H. cbn [is_terminated is_active negb] in H.
+  unfold close in H. rewrite Hs in H. apply flush_slot in H. exact H.
+Qed.
+
+(* the design's unrestricted C10_accept ("Ok => its frame was appended to queued") is false for
+   Pong: when the buffer has no room the pong stays in the slot and the call still returns Ok *)
+Lemma c10_accept_pong_refuted :
+  exists x0 w0 x1 w1,
+    ctx_new Server [] (mkConfig 0 3 None None false) = Some x0 /\
+    write x0 (MPong [1; 2]) w0 = (ROk tt, x1, w1) /\
+    queued (w_log w1) = queued (w_log w0) /\ x_additional x1 = Some (frame_pong [1; 2]).
+Proof.
+  eexists. exists (mkWorld [] [] [] [] []). eexists. eexists.
+  split; [reflexivity|]. split; [vm_compute; reflexivity|]. split; vm_compute; reflexivity.
+Qed.
